@@ -25,7 +25,7 @@ TGRID = [0, 0, 0.25, 0.25, 0.5, 0.75, 1, 1.5, 2, 3]
 
 def generate(prop, rng, seed, index, tier):
     big = tier == 'thorough'
-    typ = rng.choice(['iterable', 'iterable', 'periodic', 'periodic', 'textfile', 'filenames'])
+    typ = rng.choice(['iterable', 'iterable', 'periodic', 'periodic', 'textfile', 'filenames', 'custom'])
     poll = rng.choice([0.25, 0.5, 1, 2])
     sink = {'kind': rng.choice(['sync', 'native', 'tornado', 'native'])}
     if sink['kind'] != 'sync':
@@ -165,7 +165,7 @@ def evaluate(prop, sc, want_trace=False):
             elif e[2] == 'sink_end' and e[3] == open_k:
                 open_k = None
     # (a') one loop sleeps a full poll interval between two cycles
-    if not V and typ in ('periodic', 'filenames'):
+    if not V and typ in ('periodic', 'filenames', 'custom'):
         last = None
         started_between = True
         for e in ev:
@@ -208,9 +208,10 @@ def evaluate(prop, sc, want_trace=False):
             elif e[2] == 'stop_call':
                 stopped = True
                 last_start = None
-        # (a loop that carried on after that start() and then died of the consumer's exception owes nothing more)
+        # (a loop that carried on after that start() and then died of the consumer's exception owes nothing more;
+        #  nor is a start() judged that falls into the very instant in which the loop is dying of one)
         if last_start is not None and not any(e[2] == 'cycle' and e[0] > last_start[0] for e in ev) \
-                and not any(e[2] == 'sink_raised' and e[0] > last_start[0] for e in ev):
+                and not any(e[2] == 'sink_raised' and e[1] >= last_start[1] for e in ev):
             V.append(Violation('C18', 'C18.emit_after_stop', len(ev) - 1,
                                '%s: start() at t=%g (after a stop()) was the last call, yet no polling cycle began in the %g s that followed'
                                % (typ, last_start[1], ev[-1][1] - last_start[1]), node_op=typ))
